@@ -201,8 +201,11 @@ namespace vg
                     double jx = 0, jy = 0;
                     if (jitter)
                     {
-                        jx = (static_cast<double>(s.u8()) / 255.0 - 0.5) * 0.6;
-                        jy = (static_cast<double>(s.u8()) / 255.0 - 0.5) * 0.6;
+                        // amplitude 0.2 per coordinate: at 0.25 the three corners of a half cell can
+                        // become collinear (a zero-area triangle is not a triangulation; met in a
+                        // thorough run with the former amplitude 0.3), 0.2 keeps every height >= 0.14
+                        jx = (static_cast<double>(s.u8()) / 255.0 - 0.5) * 0.4;
+                        jy = (static_cast<double>(s.u8()) / 255.0 - 0.5) * 0.4;
                     }
                     sp.px.push_back((static_cast<double>(j) + jx) * sx);
                     sp.py.push_back((static_cast<double>(i) + jy) * sy);
@@ -233,8 +236,10 @@ namespace vg
         }
         else if (shape == 1)
         {
-            // fan: hub 0 with k spokes (degree k <= 19)
-            size_t k = s.range(3, 19);
+            // fan: hub 0 with k spokes: degree k <= 20, the configured maximum included (~7 % of the
+            // fans; a closed fan of 20 is the only shape whose hub has exactly N neighbours)
+            uint8_t kb = s.u8();
+            size_t k = kb >= 238 ? 20 : 3 + kb % 17;
             bool closed = s.coin();
             sp.px.push_back(0);
             sp.py.push_back(0);
